@@ -5,6 +5,6 @@ From IV Require Import Proofs.HooksThms.
 Theorem allow_overrides_policy_rcpt : forall c s r,
   st s = MAIL -> (Z.of_nat (length (rcpts s)) < max_rcpt c)%Z ->
   step c s (L (Rcpt (RParsed (Some r)) Allow)) =
-  Ok {| st := MAIL; from := from s; rcpts := rcpts s ++ [r]; helo := helo s |} (one 250) [].
+  Ok {| st := MAIL; from := from s; rcpts := rcpts s ++ [r]; helo := helo s; tls := tls s |} (one 250) [].
 Proof. exact HooksThms.allow_overrides_policy_rcpt. Qed.
 Print Assumptions allow_overrides_policy_rcpt.
